@@ -87,7 +87,12 @@ static int op_skiphist(toks_t *t)
     jpeg_mem_dest(&c, &jb, &ul);
     c.image_width = w; c.image_height = h; c.input_components = 3; c.in_color_space = JCS_RGB;
     jpeg_set_defaults(&c); jpeg_set_quality(&c, 85, TRUE);
+    if (ss >= 1000) {   /* 1000 + hY*100 + vY*10 + vC: luma hY x vY, chroma 1 x vC */
+      c.comp_info[0].h_samp_factor = (ss / 100) % 10; c.comp_info[0].v_samp_factor = (ss / 10) % 10;
+      c.comp_info[1].v_samp_factor = c.comp_info[2].v_samp_factor = ss % 10;
+    } else {
     c.comp_info[0].h_samp_factor = ss / 10; c.comp_info[0].v_samp_factor = ss % 10;
+    }
     if (prog) jpeg_simple_progression(&c);
     c.arith_code = arith;
     jpeg_start_compress(&c, TRUE);
@@ -237,16 +242,16 @@ static int op_skipst(toks_t *t)
   d.do_fancy_upsampling = fancy;
   d.out_color_space = ycc ? d.jpeg_color_space : (d.jpeg_color_space == JCS_GRAYSCALE ? JCS_GRAYSCALE : JCS_RGB);
   jpeg_start_decompress(&d);
-  merged = ((my_master_ptr)d.master)->using_merged_upsample ? 1 : 0;
-  if (d.upsample->need_context_rows || merged != upm) {
-    printf("R skip %s\n", d.upsample->need_context_rows ? "context" : merged ? "merged" : "separate");
+  merged = ((my_master_ptr)d.master)->using_merged_upsample ? 1 : d.upsample->need_context_rows ? 2 : 0;
+  if (merged != upm) {
+    printf("R skip %s\n", merged == 2 ? "context" : merged ? "merged" : "separate");
     goto done;
   }
   blk = (unsigned char *)malloc((size_t)64 * d.output_width * d.output_components + 16);
   {
     my_main_ptr mp = (my_main_ptr)d.main; my_upsample_ptr up = (my_upsample_ptr)d.upsample;
-    char *out = (char *)malloc(64 + (size_t)t->n * 80); size_t o = 0;
-    o += sprintf(out + o, "%s %d %d %u |", merged ? "merged" : "sep", d.min_DCT_scaled_size, d.max_v_samp_factor, d.output_height);
+    char *out = (char *)malloc(64 + (size_t)t->n * 120); size_t o = 0;
+    o += sprintf(out + o, "%s %d %d %u |", merged == 2 ? "context" : merged ? "merged" : "sep", d.min_DCT_scaled_size, d.max_v_samp_factor, d.output_height);
     for (i = 10; i < t->n; i++) {
       int n = atoi(t->tok[i] + 1), k; unsigned ret = 0; JSAMPROW rps[64];
       if (d.output_scanline >= d.output_height) break;
@@ -255,7 +260,10 @@ static int op_skipst(toks_t *t)
       if (t->tok[i][0] == 's') ret = jpeg_skip_scanlines(&d, (JDIMENSION)n);
       else if (t->tok[i][0] == 'm') ret = jpeg_read_scanlines(&d, rps, (JDIMENSION)n);
       else for (k = 0; k < n && d.output_scanline < d.output_height; k++) ret += jpeg_read_scanlines(&d, rps, 1);
-      if (merged) {
+      if (merged == 2)
+        o += sprintf(out + o, " %u:%u:%u:%d:%u:%d:%d:%u:%d:%u", ret, d.output_scanline, d.output_iMCU_row, mp->buffer_full ? 1 : 0,
+                     mp->rowgroup_ctr, mp->context_state, mp->whichptr, mp->iMCU_row_ctr, up->next_row_out, up->rows_to_go);
+      else if (merged) {
         my_merged_upsample_ptr mu = (my_merged_upsample_ptr)d.upsample;
         o += sprintf(out + o, " %u:%u:%u:%d:%u:%d:%u", ret, d.output_scanline, d.output_iMCU_row, mp->buffer_full ? 1 : 0,
                      mp->rowgroup_ctr, mu->spare_full ? 1 : 0, mu->rows_to_go);
